@@ -351,4 +351,401 @@ theorem frFeed_records (rs : List FrRec) : ∀ (s : FrSt), s.hdr = [] → s.inRe
     simp [frAfter, FrRec.ev]
 
 
+/-! ## relay composite -/
+
+/-! ## relay composite: end-of-stream classification and response start -/
+
+theorem gwRecvEnd_pre (cfg : Cfg) (st : St) (e : End)
+    (hc : st.cstate = .handle) (hs : st.started = false)
+    (hh : st.handler = true) (hst : st.status = 0) (he : e ≠ .none) (hfe : st.fcgi.ended = false) :
+    gwRecvEnd cfg st e = { st with open_ := false, status := 500, handler := false } := by
+  cases e <;> simp [gwRecvEnd, gwBackendError, gwClose, backendError, backendDone, hc, hs, hh, hst, hfe] at he ⊢
+
+/-- the fields of the state the error document leaves alone -/
+theorem staticErrdoc_proj (st : St) (hh : st.handler = false) :
+    (staticErrdoc st).status = st.status ∧ (staticErrdoc st).keepAlive = st.keepAlive ∧
+    (staticErrdoc st).handler = false ∧ (staticErrdoc st).wq = errorPage st.status ∧
+    (staticErrdoc st).evs = st.evs ∧ (staticErrdoc st).cstate = st.cstate ∧
+    (staticErrdoc st).open_ = st.open_ ∧ (staticErrdoc st).finished = true ∧ (staticErrdoc st).dc = none := by
+  unfold staticErrdoc
+  simp only [hh, Bool.false_eq_true, if_false]
+  split <;> simp [bodyClear]
+
+theorem wpStatus_errdoc (st : St) (h4 : 400 ≤ st.status) (h6 : st.status < 600) :
+    wpStatus st = staticErrdoc st := by
+  have n1 : ¬ (st.status = 204 ∨ st.status = 205) := by omega
+  have n2 : ¬ (st.status = 304) := by omega
+  have n3 : ¬ (st.status = 200) := by omega
+  simp [wpStatus, n1, n2, n3, h4, h6]
+
+theorem mergeTrailers_dc_none (cfg : Cfg) (st : St) (h : st.dc = none) : mergeTrailers cfg st = st := by
+  simp [mergeTrailers, h]
+
+/-- announcing the length only touches the header fields -/
+theorem wpSetLength_proj (cfg : Cfg) (st : St) :
+    (wpSetLength cfg st).status = st.status ∧ (wpSetLength cfg st).keepAlive = st.keepAlive ∧
+    (wpSetLength cfg st).handler = st.handler ∧ (wpSetLength cfg st).wq = st.wq ∧
+    (wpSetLength cfg st).evs = st.evs ∧ (wpSetLength cfg st).cstate = st.cstate ∧
+    (wpSetLength cfg st).open_ = st.open_ ∧ (wpSetLength cfg st).finished = st.finished ∧
+    (wpSetLength cfg st).sendChunked = st.sendChunked := by
+  unfold wpSetLength
+  (repeat' split) <;> simp
+
+theorem wpHead_proj (cfg : Cfg) (st : St) (hf : st.finished = true) :
+    (wpHead cfg st).status = st.status ∧ (wpHead cfg st).keepAlive = st.keepAlive ∧
+    (wpHead cfg st).handler = st.handler ∧ (wpHead cfg st).wq = (if cfg.head then [] else st.wq) ∧
+    (wpHead cfg st).evs = st.evs ∧ (wpHead cfg st).cstate = st.cstate ∧
+    (wpHead cfg st).open_ = st.open_ ∧ (wpHead cfg st).finished = true := by
+  unfold wpHead
+  split <;> simp_all [bodyClear]
+
+/-- http_response_write_prepare() for a response lighttpd answers itself with an error document -/
+theorem writePrepare_errdoc (cfg : Cfg) (st : St) (hh : st.handler = false)
+    (h4 : 400 ≤ st.status) (h6 : st.status < 600) :
+    (writePrepare cfg st).status = st.status ∧ (writePrepare cfg st).keepAlive = st.keepAlive ∧
+    (writePrepare cfg st).wq = (if cfg.head then [] else errorPage st.status) ∧
+    (writePrepare cfg st).evs = st.evs ∧ (writePrepare cfg st).cstate = st.cstate ∧
+    (writePrepare cfg st).open_ = st.open_ ∧ (writePrepare cfg st).finished = true := by
+  obtain ⟨e1, e2, e3, e4, e5, e6, e7, e8, e9⟩ := staticErrdoc_proj st hh
+  unfold writePrepare
+  rw [wpStatus_errdoc st h4 h6, mergeTrailers_dc_none cfg _ e9]
+  have hl : wpLength cfg (staticErrdoc st) = wpSetLength cfg (staticErrdoc st) := by simp [wpLength, e8]
+  rw [hl]
+  obtain ⟨a1, a2, a3, a4, a5, a6, a7, a8, a9⟩ := wpSetLength_proj cfg (staticErrdoc st)
+  obtain ⟨b1, b2, b3, b4, b5, b6, b7, b8⟩ := wpHead_proj cfg (wpSetLength cfg (staticErrdoc st)) (by rw [a8, e8])
+  refine ⟨by rw [b1, a1, e1], by rw [b2, a2, e2], by rw [b4, a4, e4], by rw [b5, a5, e5], by rw [b6, a6, e6],
+          by rw [b7, a7, e7], b8⟩
+
+/-- h1_send_headers(): the status line of the current status, the field lines, the empty line,
+    then the queued body; nothing else that matters changes -/
+theorem h1SendHeaders_proj (cfg : Cfg) (st : St) :
+    (h1SendHeaders cfg st).wq =
+        h1StatusLine cfg st.status ++ h1FieldLines (h1HeaderSet cfg st) ++ crlf ++ crlf ++ st.wq ∧
+    (h1SendHeaders cfg st).status = st.status ∧ (h1SendHeaders cfg st).keepAlive = st.keepAlive ∧
+    (h1SendHeaders cfg st).finished = st.finished ∧ (h1SendHeaders cfg st).evs = st.evs ∧
+    (h1SendHeaders cfg st).open_ = st.open_ ∧ (h1SendHeaders cfg st).handler = st.handler :=
+  ⟨rfl, rfl, rfl, rfl, rfl, rfl, rfl⟩
+
+/-- response start on HTTP/1.x for a state whose body is complete after write-prepare -/
+theorem startResponse_h1_finished (cfg : Cfg) (st : St) (hv : cfg.ver ≤ 1) (hst : st.status ≠ 0)
+    (hf : (writePrepare cfg st).finished = true) :
+    (startResponse cfg st).cstate = .done ∧
+    (startResponse cfg st).status = (writePrepare cfg st).status ∧
+    (startResponse cfg st).keepAlive = (writePrepare cfg st).keepAlive ∧
+    (startResponse cfg st).evs = pushW (writePrepare cfg st).evs
+      (h1StatusLine cfg (writePrepare cfg st).status ++
+       h1FieldLines (h1HeaderSet cfg (writePrepare cfg st)) ++ crlf ++ crlf ++ (writePrepare cfg st).wq) := by
+  have hv2 : ¬ (cfg.ver ≥ 2) := by omega
+  unfold startResponse
+  simp only [hst, if_false, hv2]
+  simp [h1Progress, flush, h1SendHeaders, hf]
+
+
+theorem onEnd_active (cfg : Cfg) (st : St) (e : End) (hc : st.cstate = .handle ∨ st.cstate = .write)
+    (ho : st.open_ = true) (he : e ≠ .none) (hl : lostHandler st = false) :
+    onEnd cfg st e = conStep cfg (gwRecvEnd cfg st e) := by
+  unfold onEnd
+  have hg : (st.cstate = .done || st.cstate = .redispatch || !st.open_ || e = .none) = false := by
+    rcases hc with hc | hc <;> simp [hc, ho, he]
+  rw [if_neg (by simpa using hg), if_neg (by simp [hl])]
+
+
+
+/-! ## response header store -/
+
+theorem hdrFind_append_none (hs : List (Bytes × Bytes)) (n k v : Bytes) (h : hdrFind hs n = none) :
+    hdrFind (hs ++ [(k, v)]) n = if lower k = n then some (k, v) else none := by
+  unfold hdrFind at h ⊢
+  rw [List.find?_append, h]
+  simp [List.find?]
+  split <;> simp_all
+
+theorem hdrFind_mapFirst (f : Bytes × Bytes → Bytes × Bytes) (n : Bytes) (hf : ∀ kv, (f kv).1 = kv.1) :
+    ∀ hs, hdrFind (hdrMapFirst f n hs) n = (hdrFind hs n).map f := by
+  intro hs
+  induction hs with
+  | nil => rfl
+  | cons kv rest ih =>
+    unfold hdrMapFirst
+    by_cases h : lower kv.1 = n
+    · simp [h, hdrFind, List.find?, hf]
+    · simp only [h, if_false]
+      unfold hdrFind at ih ⊢
+      simp [List.find?, h, ih]
+
+theorem hasHdr_hdrSet (hs : List (Bytes × Bytes)) (k v : Bytes) :
+    hasHdr (hdrSet hs k v) (lower k) = !v.isEmpty := by
+  unfold hdrSet hasHdr
+  cases hf : hdrFind hs (lower k) with
+  | none => simp [hdrFind_append_none hs (lower k) k v hf]
+  | some kv =>
+    simp only
+    rw [hdrFind_mapFirst (fun kv => (kv.1, v)) (lower k) (fun _ => rfl), hf]
+    simp
+
+theorem hasHdr_hdrAppend (hs : List (Bytes × Bytes)) (k v : Bytes) (hv : v ≠ []) :
+    hasHdr (hdrAppend hs k v) (lower k) = true := by
+  have hv' : v.isEmpty = false := by cases v <;> simp_all
+  unfold hdrAppend hasHdr
+  simp only [hv', Bool.false_eq_true, if_false]
+  cases hf : hdrFind hs (lower k) with
+  | none => simp [hdrFind_append_none hs (lower k) k v hf, hv']
+  | some kv =>
+    simp only
+    rw [hdrFind_mapFirst (fun kv => if kv.2.isEmpty then (kv.1, v) else (kv.1, kv.2 ++ [44, sp] ++ v)) (lower k)
+        (by intro kv; split <;> rfl), hf]
+    simp only [Option.map_some]
+    split <;> simp_all
+
+theorem decBytes_ne_nil (n : Nat) : decBytes n ≠ [] := by
+  unfold decBytes decDigits
+  split <;> simp
+
+theorem lower_cl : lower (ofString "Content-Length") = nContentLength := by decide
+theorem lower_te : lower (ofString "Transfer-Encoding") = nTransferEncoding := by decide
+
+/-- **A kept-alive HTTP/1.x response always announces its length.**  After
+    http_response_write_prepare(), for a response that carries a body (not HEAD, not 204/304),
+    keep-alive survives only if Content-Length, Transfer-Encoding or Upgrade is set. -/
+theorem writePrepare_keepalive_framed (cfg : Cfg) (st : St) (hv : cfg.ver ≤ 1) (hh : cfg.head = false)
+    (hk : (writePrepare cfg st).keepAlive = true) :
+    (writePrepare cfg st).status = 204 ∨ (writePrepare cfg st).status = 304 ∨
+    hasHdr (writePrepare cfg st).headers nContentLength = true ∨
+    hasHdr (writePrepare cfg st).headers nTransferEncoding = true ∨
+    hasHdr (writePrepare cfg st).headers nUpgrade = true := by
+  unfold writePrepare at hk ⊢
+  generalize mergeTrailers cfg (wpStatus st) = s2 at hk ⊢
+  have hhd : ∀ s, wpHead cfg s = s := by intro s; simp [wpHead, hh]
+  rw [hhd] at hk ⊢
+  unfold wpLength at hk ⊢
+  by_cases hf : s2.finished = true
+  · simp only [hf, if_true] at hk ⊢
+    unfold wpSetLength at hk ⊢
+    by_cases hn : noLen s2 = true
+    · simp only [hn, if_true] at hk ⊢
+      by_cases hq : s2.wq.length > 0
+      · simp only [hq, if_true]
+        right; right; left
+        have := hasHdr_hdrSet s2.headers (ofString "Content-Length") (decBytes s2.wq.length)
+        rw [lower_cl] at this
+        simp [this, decBytes_ne_nil]
+      · simp only [hq, if_false, hh]
+        by_cases h2 : s2.status = 204
+        · left; simp [h2]
+        · by_cases h3 : s2.status = 304
+          · right; left; simp [h2, h3]
+          · right; right; left
+            have := hasHdr_hdrSet s2.headers (ofString "Content-Length") (ofString "0")
+            rw [lower_cl, show (!(ofString "0").isEmpty) = true by decide] at this
+            simp only [h2, h3, ne_eq, not_false_eq_true, decide_true, Bool.not_false, Bool.and_self, if_true]
+            exact this
+    · simp only [hn, if_false] at hk ⊢
+      simp only [noLen, Bool.and_eq_true, Bool.not_eq_true', not_and, Bool.not_eq_false] at hn
+      by_cases hcl : hasHdr s2.headers nContentLength = true
+      · right; right; left; exact hcl
+      · right; right; right; left
+        exact hn (by simpa using hcl)
+  · have hv2 : ¬ (cfg.ver ≥ 2) := by omega
+    simp only [hf, if_false, hv2] at hk ⊢
+    unfold wpStartStreaming at hk ⊢
+    by_cases hc : (noLen s2 && !hasHdr s2.headers nUpgrade) = true
+    · simp only [hc, if_true] at hk ⊢
+      by_cases h1 : cfg.ver = 1
+      · simp only [h1, if_true]
+        right; right; right; left
+        have := hasHdr_hdrAppend s2.headers (ofString "Transfer-Encoding") (ofString "chunked") (by decide)
+        rw [lower_te] at this
+        simpa using this
+      · simp [h1] at hk
+    · simp only [hc, if_false] at hk ⊢
+      simp only [noLen, Bool.and_eq_true, Bool.not_eq_true', not_and, Bool.not_eq_false] at hc
+      by_cases hcl : hasHdr s2.headers nContentLength = true
+      · right; right; left; exact hcl
+      · by_cases hte : hasHdr s2.headers nTransferEncoding = true
+        · right; right; right; left; exact hte
+        · right; right; right; right
+          exact hc ⟨by simpa using hcl, by simpa using hte⟩
+
+
+
+theorem findIdx_skip (p : UInt8 → Bool) (k : Bytes) : ∀ (rest : Bytes) (i : Nat), (∀ b ∈ k, p b = false) →
+    findIdx p (k ++ rest) i = findIdx p rest (i + k.length) := by
+  induction k with
+  | nil => intro rest i _; simp
+  | cons x xs ih =>
+    intro rest i h
+    have hx : p x = false := h x (by simp)
+    simp only [List.cons_append, findIdx, hx, Bool.false_eq_true, if_false]
+    rw [ih rest (i + 1) (fun b hb => h b (by simp [hb]))]
+    simp only [List.length_cons]
+    congr 1
+    omega
+
+/-- names lighttpd treats specially in a backend response head -/
+def specialNames : List Bytes :=
+  [nStatus, nUpgrade, nConnection, nContentType, nContentLength, nTransferEncoding, nHttp2Settings]
+
+/-- an ordinary end-to-end field as a backend may send it: `name ": " value CRLF` -/
+structure PlainField (k v : Bytes) : Prop where
+  kne : k ≠ []
+  kcolon : ∀ b ∈ k, (b = colon) = false
+  klast : endsWs k = false
+  kspecial : lower k ∉ specialNames
+  vne : v ≠ []
+  vhead : isWs (v.headD 0) = false
+
+def fieldLine (k v : Bytes) : Bytes := k ++ [colon, sp] ++ v ++ [cr, lf]
+
+theorem fieldOfLine_fieldLine {k v : Bytes} (h : PlainField k v) : fieldOfLine (fieldLine k v) = some (k, v) := by
+  unfold fieldOfLine fieldLine
+  have hbody : (k ++ [colon, sp] ++ v ++ [cr, lf]).dropLast = k ++ (colon :: sp :: (v ++ [cr])) := by
+    have : k ++ [colon, sp] ++ v ++ [cr, lf] = (k ++ (colon :: sp :: (v ++ [cr]))) ++ [lf] := by simp
+    rw [this, List.dropLast_concat]
+  simp only [hbody]
+  rw [findIdx_skip (· = colon) k _ 0 (by intro b hb; simpa using h.kcolon b hb)]
+  simp only [findIdx, decide_true, if_true, Nat.zero_add]
+  have hk : k.isEmpty = false := by
+    cases hk : k with
+    | nil => exact absurd hk h.kne
+    | cons a as => rfl
+  have htake : (k ++ colon :: sp :: (v ++ [cr])).take k.length = k := by simp
+  have hdrop : (k ++ colon :: sp :: (v ++ [cr])).drop (k.length + 1) = sp :: (v ++ [cr]) := by
+    rw [List.drop_append]; simp
+  simp only [htake, hk, Bool.false_eq_true, if_false, hdrop]
+  obtain ⟨x, xs, hv⟩ : ∃ x xs, v = x :: xs := by
+    cases v with
+    | nil => exact absurd rfl h.vne
+    | cons x xs => exact ⟨x, xs, rfl⟩
+  have hx : isWs x = false := by simpa [hv] using h.vhead
+  have hsp : isWs sp = true := by decide
+  have hdw : (sp :: (v ++ [cr])).dropWhile isWs = v ++ [cr] := by
+    rw [List.dropWhile_cons, if_pos hsp, hv, List.cons_append, List.dropWhile_cons, if_neg (by simp [hx])]
+  rw [hdw]
+  simp
+
+
+theorem applyField_plain (cfg : Cfg) (st : St) {k v : Bytes} (h : PlainField k v) :
+    applyField cfg st k v = { st with headers := hdrInsert (cfg.ver ≥ 2) st.headers k v } := by
+  have hs := h.kspecial
+  simp only [specialNames, List.mem_cons, List.not_mem_nil, or_false, not_or] at hs
+  obtain ⟨h1, h2, h3, h4, h5, h6, h7⟩ := hs
+  unfold applyField
+  simp only [h1, h2, h3, h4, h5, h6, h7, if_false, h.klast, Bool.false_eq_true]
+
+theorem applyLine_plain (cfg : Cfg) (st : St) {k v : Bytes} (h : PlainField k v) :
+    applyLine cfg st (fieldLine k v) = { st with headers := hdrInsert (cfg.ver ≥ 2) st.headers k v } := by
+  unfold applyLine
+  rw [fieldOfLine_fieldLine h]
+  exact applyField_plain cfg st h
+
+/-- a fresh name is appended to the stored fields -/
+theorem hdrInsert_fresh (h2 : Bool) (hs : List (Bytes × Bytes)) (k v : Bytes) (hv : v ≠ [])
+    (hf : hdrFind hs (lower k) = none) : hdrInsert h2 hs k v = hs ++ [(k, v)] := by
+  have hv' : v.isEmpty = false := by cases v <;> simp_all
+  simp [hdrInsert, hv', hf]
+
+
+theorem foldl_applyLine_plain (cfg : Cfg) (fs : List (Bytes × Bytes)) : ∀ (st : St),
+    (∀ f ∈ fs, PlainField f.1 f.2) →
+    (fs.map fun f => fieldLine f.1 f.2).foldl (applyLine cfg) st =
+      { st with headers := fs.foldl (fun hs f => hdrInsert (cfg.ver ≥ 2) hs f.1 f.2) st.headers } := by
+  induction fs with
+  | nil => intro st _; rfl
+  | cons f rest ih =>
+    intro st h
+    simp only [List.map_cons, List.foldl_cons]
+    rw [applyLine_plain cfg st (h f (by simp)), ih _ (fun g hg => h g (by simp [hg]))]
+
+theorem hdrFind_none_of_not_mem (hs : List (Bytes × Bytes)) (n : Bytes)
+    (h : n ∉ hs.map fun kv => lower kv.1) : hdrFind hs n = none := by
+  induction hs with
+  | nil => rfl
+  | cons kv rest ih =>
+    simp only [List.map_cons, List.mem_cons, not_or] at h
+    unfold hdrFind
+    simp only [List.find?]
+    have : (lower kv.1 = n) = False := by simp; exact fun e => h.1 e.symm
+    simp only [this, decide_false]
+    exact ih h.2
+
+/-- fields with pairwise different (case-insensitive) names that are not yet stored are
+    appended in order, name spelling and value untouched -/
+theorem foldl_hdrInsert_fresh (h2 : Bool) (fs : List (Bytes × Bytes)) : ∀ (hs : List (Bytes × Bytes)),
+    (∀ f ∈ fs, f.2 ≠ []) → ((hs ++ fs).map fun kv => lower kv.1).Nodup →
+    fs.foldl (fun hs f => hdrInsert h2 hs f.1 f.2) hs = hs ++ fs := by
+  induction fs with
+  | nil => intro hs _ _; simp
+  | cons f rest ih =>
+    intro hs hv hnd
+    simp only [List.foldl_cons]
+    have hfresh : hdrFind hs (lower f.1) = none := by
+      apply hdrFind_none_of_not_mem
+      simp only [List.map_append, List.map_cons] at hnd
+      have := List.nodup_append.mp hnd
+      intro hmem
+      exact this.2.2 _ hmem _ (by simp) rfl
+    rw [hdrInsert_fresh h2 hs f.1 f.2 (hv f (by simp)) hfresh, ih _ (fun g hg => hv g (by simp [hg]))]
+    · simp
+    · simpa using hnd
+
+
+theorem readPlain_incomplete (cfg : Cfg) (st st' : St) (seg : Bytes) (hs : st.started = false)
+    (hp : headerStep cfg st seg = (st', .goOn))
+    (hs' : st'.started = false) : readPlain cfg st seg = (st', .goOn) := by
+  unfold readPlain
+  rw [if_pos (by simp [hs]), hp]
+  simp [hs']
+
+
+theorem onData_incomplete (cfg : Cfg) (st st' : St) (seg : Bytes) (hbe : cfg.be ≠ .fcgi)
+    (hc : st.cstate = .handle) (ho : st.open_ = true) (hs : st.started = false) (hh : st.handler = true)
+    (hseg : seg ≠ [])
+    (hp : headerStep cfg st seg = (st', .goOn))
+    (hs' : st'.started = false) (hf' : st'.finished = false) (hc' : st'.cstate = .handle) (ho' : st'.open_ = true) :
+    onData cfg st seg = st' := by
+  have hseg' : seg.isEmpty = false := by cases seg <;> simp_all
+  have hl : lostHandler st = false := by simp [lostHandler, hh]
+  have hr : gwRecvData cfg st seg = st' := by
+    unfold gwRecvData
+    rw [if_neg hbe, readPlain_incomplete cfg st st' seg hs hp hs']
+  unfold onData
+  rw [if_neg (by simp [hc, ho, hseg']), if_neg (by simp [hl]), hr]
+  simp [conStep, hc', handlerStarts, subrequestWaits, ho', hf', hs']
+
+
+theorem headerStep_append (cfg : Cfg) (st : St) (a b : Bytes) :
+    headerStep cfg { st with hbuf := st.hbuf ++ a } b = headerStep cfg st (a ++ b) := by
+  simp [headerStep, List.append_assoc, Nat.add_assoc]
+
+
+theorem chunkAppend_plain (st : St) (data : Bytes) (hsc : st.sendChunked = false) :
+    chunkAppend st data = { st with wq := st.wq ++ data } := by
+  unfold chunkAppend
+  cases data with
+  | nil => simp
+  | cons x xs => simp [hsc]
+
+
+/-- http_response_append_mem() without chunked decoding / encoding, in closed form -/
+theorem appendMem_plain (st : St) (data : Bytes) (hd : st.decodeChunked = false) (hsc : st.sendChunked = false) :
+    (appendMem st data).1 =
+      if st.scratch > 0 then
+        if st.scratch - (data.length : Int) ≤ 0 then
+          { st with scratch := 0, finished := true, wq := st.wq ++ data.take st.scratch.toNat }
+        else { st with scratch := st.scratch - data.length, wq := st.wq ++ data }
+      else if st.scratch = 0 then st
+      else { st with wq := st.wq ++ data } := by
+  unfold appendMem
+  rw [if_neg (by simp [hd])]
+  by_cases h1 : st.scratch > 0
+  · rw [if_pos h1, if_pos h1]
+    by_cases h2 : st.scratch - (data.length : Int) ≤ 0
+    · rw [if_pos h2, if_pos h2, chunkAppend_plain _ _ (by simpa using hsc)]
+    · rw [if_neg h2, if_neg h2, chunkAppend_plain _ _ (by simpa using hsc)]
+  · rw [if_neg h1, if_neg h1]
+    by_cases h2 : st.scratch = 0
+    · rw [if_pos h2, if_pos h2]
+    · rw [if_neg h2, if_neg h2, chunkAppend_plain _ _ hsc]
+
+
 end LtVerif.BeResp
